@@ -31,11 +31,14 @@ LEAN_MODULES = ['HdVerif.Props.C01']
 MODEL_MODULES = ['HdVerif.Model.SegEncode']
 NAMESPACE = 'HdVerif.C01'
 DRIVER = 'Drivers/C01.lean'
-RULE = ('one case = one Segmentation built from a generated (source kind, planes, rows, cols, plane order, type, layout, '
-        'dtype, segment numbers, max fractional value, omit_empty_frames, empty-plane pattern, transfer syntax, workers) '
-        'and read back by source instance / source frame in the supplied order on three access paths; non-trivial = '
-        'accepted mask with at least one non-empty and (when planes > 1) one differing plane, distinct by (type, layout, '
-        'dtype, rows*cols mod 8, rows*cols < 8, planes, segments, omit, empties, syntax, source kind, path)')
+RULE = ('one case = one Segmentation built from a generated (source kind and geometry, planes, rows, cols, plane order, type, '
+        'layout, dtype, memory layout of the array, segment numbers, max fractional value, fractional type, omit_empty_frames, '
+        'empty-plane pattern, transfer syntax, workers) and read back by source instance / source frame in the supplied order '
+        '(+ a sub-permutation with a repeated source) on the access paths memory / eager / lazy / real files / cached '
+        'pixel_array / from_dataset / pickle / deepcopy; plus an exhaustive 1 x n frame-size grid and tiny arrays through the '
+        'two static helpers; non-trivial = accepted mask with at least one non-empty and (when planes > 1) one differing '
+        'plane, distinct by (type, layout, dtype, rows*cols mod 8, rows*cols < 8, planes, segments, omit, empties, syntax, '
+        'source kind, path)')
 ASSUMPTIONS = [
     'fractional inputs are dyadic rationals k/2^j (j <= 10) so that x * max_fractional_value is exact in float32/float64; '
     'rounding of non-dyadic products inside numpy is not modelled',
